@@ -6,6 +6,7 @@
                                           (site `*`: of some site of the service — keys built by setters for `reset`)
     O <9 cfg bits> <M> <seed> <x> <T|-> ; op ; op …   -> "<outputs of the code model> | <outputs of the fresh twin>", each `<out>@<state>,<period>` (public state after the op)
     C <hamDeg 0/1/2> <bit> <bit> <seed> <d> ; op ; …    -> same for the centre manifold
+    S <bit> <bit> <seed> <cfg> <opts> ; op ; …          -> same for the `compute_stability(options)` cache
   values:  n | i<nat> | s<text> | t<k> v1 … vk | l<k> v1 … vk | d<k> k1 v1 … kk vk
 -/
 import HitenModel.Core.C20
@@ -170,6 +171,14 @@ def parseCOp (toks : List String) : Option COp :=
   | ["SL"] => some .saveLoad
   | _ => none
 
+def parseSOp (toks : List String) : Option SOp :=
+  match toks with
+  | ["ST", o] => o.toNat?.map .stab
+  | ["EG"] => some .eig
+  | ["SO", o] => o.toNat?.map .setOpts
+  | ["SG", c] => c.toNat?.map .setCfg
+  | _ => none
+
 def words (s : String) : List String := (s.splitOn " ").filter (· ≠ "")
 
 def bit (s : String) : Bool := s == "1"
@@ -223,6 +232,18 @@ def handle (line : String) : String :=
         let a := runC' cfg O (freshC d) ops
         let b := runCL' cfg O d ops
         String.intercalate " " a ++ " | " ++ String.intercalate " " b
+    | _, _, _ => "?args"
+  | "S" :: a :: b :: seed :: c :: o :: rest =>
+    match seed.toNat?, c.toNat?, o.toNat? with
+    | some sd, some c, some o =>
+      let opsS := (String.intercalate " " rest).splitOn ";" |>.map words |>.filter (· ≠ [])
+      match opsS.mapM parseSOp with
+      | none => "?op"
+      | some ops =>
+        let R := fun (c o : Nat) => mix 1000003 sd 21 [c, o]
+        let x := runS ⟨bit a, bit b⟩ R (freshS c o) ops
+        let y := runSL R (c, o) ops
+        String.intercalate " " (x.map showOut) ++ " | " ++ String.intercalate " " (y.map showOut)
     | _, _, _ => "?args"
   | [] => ""
   | _ => "?cmd"
